@@ -152,10 +152,10 @@ def resample_part(run, np, dsp, T):
         cases = [c for k, c in enumerate(cases) if k % 3 == 0 or c[0]["n"] in (1, 12)]
     for c, pr, qr, outlen, firlen, orig in cases:
         n, p, q, pts = c["n"], c["p"], c["qq"], c["pts"]
-        for axis in (0, 1, -1):
-            run.case(("resample", n, p, q, pts, axis), part="resample index model + FIR definition")
-            tags = {"fn": "resample", "p": p, "q": q}
-            shape = [3, 3]
+        for axis, base in ((0, [3, 3]), (1, [3, 3]), (-1, [3, 3]), (0, [3, 2, 3]), (-3, [2, 3, 2]), (1, [2, 3, 4])):
+            run.case(("resample", n, p, q, pts, axis, len(base)), part="resample index model + FIR definition")
+            tags = {"fn": "resample", "p": p, "q": q, "ndim": len(base)}
+            shape = list(base)
             shape[axis] = n
             data = rng.standard_normal(shape) + 5.0
             try:
